@@ -136,3 +136,41 @@ func TestDecodeValueString(t *testing.T) {
 		}
 	}
 }
+
+func TestSkipValueContainer(t *testing.T) {
+	for in, exp := range map[string]int{
+		`{} `:                           2,
+		`[ ]`:                           3,
+		`{"a":[1,{"b":"}"}],"c":"]"},`:  27,
+		`[[[]]]`:                        6,
+		`[ 1 , "\"]" , {"a" : null} ]x`: 28,
+		`[1,]`:                          -int(types.ERR_INVALID_CHAR),
+		`[1 2]`:                         -int(types.ERR_INVALID_CHAR),
+		`[,1]`:                          -int(types.ERR_INVALID_CHAR),
+		`[1}`:                           -int(types.ERR_INVALID_CHAR),
+		`[1`:                            -int(types.ERR_EOF),
+		`[`:                             -int(types.ERR_EOF),
+		`{"a":1,}]`:                     -int(types.ERR_INVALID_CHAR),
+		`{"a"}`:                         -int(types.ERR_INVALID_CHAR),
+		`{"a":}`:                        -int(types.ERR_INVALID_CHAR),
+		`{1:2}`:                         -int(types.ERR_INVALID_CHAR),
+		`{"a":1 "b":2}`:                 -int(types.ERR_INVALID_CHAR),
+		`{"a":tru}`:                     -int(types.ERR_INVALID_CHAR),
+		`{"a":[01]}`:                    -int(types.ERR_INVALID_CHAR),
+		`{"a":1`:                        -int(types.ERR_EOF),
+	} {
+		if ret, _ := SkipValue(in, 0); ret != exp {
+			t.Fatalf("%q: ret %d, expected %d", in, ret, exp)
+		}
+	}
+	deep := make([]byte, 2*maxSkipDepth)
+	for i := range deep {
+		deep[i] = "[]"[i/maxSkipDepth]
+	}
+	if ret, _ := SkipValue(string(deep), 0); ret != len(deep) {
+		t.Fatal(ret)
+	}
+	if ret, _ := SkipValue("["+string(deep)+"]", 0); ret != -int(types.ERR_RECURSE_EXCEED_MAX) {
+		t.Fatal(ret)
+	}
+}
